@@ -72,7 +72,12 @@ def run_case(case):
                 vf = simcheck.vf_arrays(ref, params, "lcm", rng, lcm_solve=fsol)
             else:
                 vf = simcheck.vf_arrays(ref, params, mode, rng, refsol=refsol)
-            fsim, _ = pipeline.get_lcm_function(model, "simulate")
+            # "the value arrays in use": the arrays handed over as vf_arr_list, also when the
+            # function was obtained for target solve_and_simulate (call variant of the same API)
+            both = mode == "random" and (case["index"] // 3) % 2 == 0
+            fsim, _ = pipeline.get_lcm_function(model, "solve_and_simulate" if both else "simulate")
+            if both:
+                res["counters"]["vf_arr_list_passed_to_solve_and_simulate"] = 1
         except Exception as e:  # noqa: BLE001
             res["violations"].append({"key": pipeline.exc_key(e, "build"), "what": pipeline.exc_text(e)})
             res["status"] = "violated"
